@@ -96,6 +96,10 @@ def variants_conelp(cvxopt, PR, pr, rng, max_variants, focus=None):
             # the external solver DSDP (no equality constraints); it works to its own relative gap tolerance (default 1e-5)
             od = dict(o)
             out.append(('sdp dsdp', lambda: quiet(solvers.sdp, c, G[:L, :], h[:L], Gs_, hs_, solver='dsdp', options=od), (1e-5, 1e-5, 1e-5), None, None))
+            # DSDP stopped early by its own iteration limit: whatever status comes back is judged like any other (an iterate that has not
+            # converged must not be called 'optimal')
+            om = dict(o); om['dsdp'] = {'DSDP_MaxIts': rng.choice([1, 2, 4, 6])}
+            out.append(('sdp dsdp-maxits', lambda: quiet(solvers.sdp, c, G[:L, :], h[:L], Gs_, hs_, solver='dsdp', options=om), (1e-5, 1e-5, 1e-5), None, None))
     return out
 
 def split_blocks(v, dims):
